@@ -22,6 +22,8 @@ static Fields gen(Tape &t) {
   }
   ops_to_fields(f, ops);
   for (size_t k = 0; k < ops.size(); k++) f.seti("mm." + std::to_string(k), t.below(4));
+  // allocation failures: for a quarter of the ops the j-th request of that call fails once (whichever manager serves it)
+  for (size_t k = 0; k < ops.size(); k++) f.seti("fault." + std::to_string(k), t.chance(3, 4) ? 0 : t.range(1, 6));
   return f;
 }
 
@@ -59,6 +61,11 @@ template <class A> static Verdict run(const Fields &f, int *allocCalls, int *obj
       // which manager does this call use? in-place ops use the object's own
       UriMemoryManager *used = m;
       if ((op.kind == 'N' || op.kind == 'O') && w.size()) used = w.at(((op.i % w.size()) + w.size()) % w.size()).mm;
+      int fault = (int)f.geti("fault." + std::to_string(k));
+      for (LedgerMM *lm : {&M.A, &M.B, &M.backend}) { lm->reset_plan(); if (fault > 0) { lm->requests = 0; lm->fail_at = (uint64_t)fault; } }
+      L.fail_at = 0;
+      if (fault > 0) { L.req = 0; L.fail_at = (uint64_t)fault; }
+      struct PlanOff { Managers &M; LibcLedger &L; void off() { M.A.reset_plan(); M.B.reset_plan(); M.backend.reset_plan(); L.fail_at = 0; } ~PlanOff() { off(); } } planOff{M, L};
       uint64_t libcBefore = L.calls;
       uint64_t reqBefore = M.A.requests + M.B.requests + M.backend.requests;
       if (op.kind == 'Q') {
@@ -66,13 +73,15 @@ template <class A> static Verdict run(const Fields &f, int *allocCalls, int *obj
         typename A::QL *ql = nullptr;
         int cnt = 0;
         int rc = A::DissectQueryMallocExMm(&ql, &cnt, q.data(), q.data() + q.size(), URI_TRUE, URI_BR_DONT_TOUCH, m);
-        VF_REQUIRE(rc == 0, "%s: dissect rc=%d", A::name(), rc);
+        VF_REQUIRE(rc == 0 || (fault > 0 && rc == URI_ERROR_MALLOC), "%s: dissect rc=%d", A::name(), rc);
+        if (rc != 0) ql = nullptr;  // documented: nothing to release after a failure
         if (ql) {
           Ch *s = nullptr;
           rc = A::ComposeQueryMallocExMm(&s, ql, URI_TRUE, URI_TRUE, m);
-          VF_REQUIRE(rc == 0 && s, "%s: compose rc=%d", A::name(), rc);
-          if (m) m->free(m, s); else { free(s); L.outstanding--; L.live.erase(s); }
+          VF_REQUIRE((rc == 0 && s) || (fault > 0 && rc == URI_ERROR_MALLOC), "%s: compose rc=%d", A::name(), rc);
+          if (rc == 0) { if (m) m->free(m, s); else { free(s); L.outstanding--; L.live.erase(s); } }
         }
+        planOff.off();
         VF_REQUIRE(A::FreeQueryListMm(ql, m) == 0, "%s: uriFreeQueryListMm failed", A::name());
       } else {
         typename World<A>::Res r = w.exec(op);
